@@ -12,7 +12,7 @@ use crate::refs::ntlm::Direction;
 use crate::refs::proto::Profile;
 use crate::report::Report;
 use crate::rng::{fnv, hex, Rng};
-use crate::server::{Duplex, FinalAction, FinalCtx};
+use crate::server::{BlindCtx, Duplex, FinalAction, FinalCtx};
 use crate::tls;
 use crate::{par_run, Cfg};
 use serde_json::{json, Value};
@@ -48,11 +48,20 @@ pub fn configs() -> Vec<Config> {
             k += 1;
         }
     }
+    // Ed25519 certificates whose key's low-order bytes are ff / fe / ff ff
+    for (j, id) in tls::SPECIAL_IDENTITIES.iter().enumerate() {
+        let (d, u, p) = creds[j % 3];
+        let mut c = ConnCfg::default();
+        c.domain = d.into();
+        c.user = u.into();
+        c.password = p.into();
+        out.push(Config { cfg: c, identity: *id, tls12_only: j % 2 == 0 });
+    }
     out
 }
 
 /// reply classes; `n` of a class may depend on the honest reply length
-pub const CLASSES: [&str; 16] = [
+pub const CLASSES: [&str; 17] = [
     "bit-flip",
     "key-plus-k",
     "length-variants",
@@ -69,7 +78,72 @@ pub const CLASSES: [&str; 16] = [
     "two-bit-checksum",
     "checksum-permutation",
     "honest-control",
+    "blind-attacker",
 ];
+
+/// CHALLENGE flag sets a man in the middle may present (it relays or rewrites the CHALLENGE at will)
+pub const BLIND_FLAGS: [u32; 14] = [
+    0xE28A8235,
+    0xE28A8235 & !0x20,
+    0xE28A8235 & !0x10,
+    0xE28A8235 & !0x30,
+    0xE28A8235 & !0x8030,
+    0xE28A8235 & !0x4000_0000,
+    0xE28A8235 & !0x0008_0000,
+    0xE28A8235 & !0xA000_0000,
+    0xE28A8235 & !0x200,
+    0xE28A8235 & !0x1,
+    0xE28A8235 & !0x0200_0000,
+    0,
+    0xffff_ffff,
+    0x201,
+];
+pub const BLIND_REPLIES: u64 = 14;
+
+/// replies that need no secret: what is visible on the wire plus the certificate's key
+fn blind_reply(ctx: &BlindCtx, rv: u64, r: &mut Rng) -> Vec<u8> {
+    let k = &ctx.subject_public_key;
+    let k1 = cssp::le_increment(k);
+    let ct = &ctx.client_pub_key_auth;
+    let cat = |a: &[u8], b: &[u8]| -> Vec<u8> {
+        let mut v = a.to_vec();
+        v.extend_from_slice(b);
+        v
+    };
+    let dummy = [1u8, 0, 0, 0, 0, 0, 0, 0, 0, 0, 0, 0, 0, 0, 0, 0];
+    let zero_key = [0u8; 16];
+    let pka: Vec<u8> = match rv {
+        0 => cat(&dummy, &k1),
+        1 => cat(&[0u8; 16], &k1),
+        2 => k1.clone(),
+        3 => cat(&dummy, k),
+        4 => ct.clone(),
+        5 => cat(&ct[..ct.len().min(16)], &k1),
+        6 => {
+            let mut sig = vec![1u8, 0, 0, 0];
+            sig.extend_from_slice(&r.bytes(8));
+            sig.extend_from_slice(&[0, 0, 0, 0]);
+            cat(&sig, &k1)
+        }
+        // sealed and signed with an all-zero session key, server and client direction
+        7 => Direction::new(&zero_key, false).wrap(&k1),
+        8 => Direction::new(&zero_key, true).wrap(&k1),
+        9 => vec![],
+        // dummy signature with sequence number 1
+        10 => cat(&[1u8, 0, 0, 0, 0, 0, 0, 0, 0, 0, 0, 0, 1, 0, 0, 0], &k1),
+        // the client's own token with the last byte of the ciphertext incremented
+        11 => {
+            let mut v = ct.clone();
+            if let Some(x) = v.get_mut(16) {
+                *x = x.wrapping_add(1);
+            }
+            v
+        }
+        12 => cat(&[0xffu8; 16], &k1),
+        _ => cat(&dummy, &cat(&k1, &[0])),
+    };
+    ts(ctx.ts_version, pka)
+}
 
 fn seal_with(key: &[u8; 16], plain: &[u8]) -> Vec<u8> {
     Direction::new(key, false).wrap(plain)
@@ -131,7 +205,7 @@ pub fn make_reply(ctx: &FinalCtx, class: usize, sub: u64, r: &mut Rng) -> Option
             send(b)
         }
         "key-plus-k" => {
-            let ks: [i128; 12] = [0, 2, -1, 255, 256, 257, 1 << 64, -256, 3, 65536, 1 << 32, 0x0100_0000_0000_0001];
+            let ks: [i128; 20] = [0, 2, -1, 255, 256, 257, 1 << 64, -256, 3, 65536, 1 << 32, 0x0100_0000_0000_0001, -255, -254, -65535, 65537, 65281, -65279, 513, 1 - (1 << 24)];
             if sub as usize >= ks.len() + 4 {
                 return None;
             }
@@ -312,6 +386,7 @@ pub fn make_reply(ctx: &FinalCtx, class: usize, sub: u64, r: &mut Rng) -> Option
             };
             send(b)
         }
+        "blind-attacker" => None,
         "tls-close" => {
             if sub >= 1 {
                 return None;
@@ -406,11 +481,30 @@ pub fn run_case(conf: &Config, class: usize, sub: u64, seed: u64) -> Result<Outc
     p.selected_protocol = 2;
     let d = Duplex::new(p);
     let mut nr = Rng::derive(seed, "C01-nla", class as u64, sub);
-    let nla = crate::gen::nla_cfg(&mut nr, &conf.cfg);
+    let mut nla = crate::gen::nla_cfg(&mut nr, &conf.cfg);
     let shared: Arc<Mutex<(bool, Vec<u8>, bool, usize, bool)>> = Arc::new(Mutex::new((false, Vec::new(), false, 0, false)));
     let sh = shared.clone();
     let mut hr = Rng::derive(seed, "C01-reply", class as u64, sub);
     let probe = d.clone();
+    let blind = CLASSES[class] == "blind-attacker";
+    if blind && sub >= BLIND_FLAGS.len() as u64 * BLIND_REPLIES {
+        return Ok(Outcome { connect: Ok(()), reached_final_round: false, reply: vec![], honest: false, app_bytes_after: 0, auth_info_received: false, raw_bytes_after: 0, skipped: true });
+    }
+    if blind {
+        nla.challenge_flags = BLIND_FLAGS[(sub / BLIND_REPLIES) as usize];
+        let sh = shared.clone();
+        let mut br = Rng::derive(seed, "C01-blind", class as u64, sub);
+        d.with(|s| {
+            s.blind_hook = Some(Box::new(move |ctx: &BlindCtx| {
+                let b = blind_reply(ctx, sub % BLIND_REPLIES, &mut br);
+                let mut g = sh.lock().unwrap();
+                g.0 = true;
+                g.1 = b.clone();
+                g.2 = false;
+                b
+            }));
+        });
+    }
     d.with(|s| {
         s.tls_identity = conf.identity;
         s.tls12_only = conf.tls12_only;
@@ -504,7 +598,7 @@ pub fn run(cfg: &Cfg) -> Report {
     let mut total = Report::new();
     let nconf = if cfg.quick() { 2 } else { confs.len() };
     // the configuration used by the quick tier rotates with the seed
-    let first = (seed as usize) % confs.len();
+    let first = (seed as usize) % (confs.len() - if cfg.quick() { tls::SPECIAL_IDENTITIES.len() } else { 0 });
     for k in 0..nconf {
         let mut ci = (first + k) % confs.len();
         if cfg.quick() && k == 1 {
@@ -521,6 +615,7 @@ pub fn run(cfg: &Cfg) -> Report {
                 "truncation" => 700,
                 "two-bit-checksum" => 28 * 8,
                 "length-variants" => 54,
+                "blind-attacker" => BLIND_FLAGS.len() as u64 * BLIND_REPLIES,
                 _ => 40,
             };
             let confs_ref = &confs;
@@ -532,13 +627,16 @@ pub fn run(cfg: &Cfg) -> Report {
         }
         // all structured classes for two more configurations even in the quick tier
         if cfg.quick() {
-            for extra in 1..=2 {
-                let cj = (first + extra * 5) % confs.len();
+            // ... and always the three certificates whose key has carry-prone low-order bytes
+            let base = confs.len() - tls::SPECIAL_IDENTITIES.len();
+            let mut extras: Vec<usize> = if k == 0 { vec![(first + 5) % base, (first + 10) % base] } else { (base..confs.len()).collect() };
+            extras.retain(|c| *c != ci);
+            for cj in extras {
                 for class in 1..CLASSES.len() {
                     if CLASSES[class] == "truncation" {
                         continue;
                     }
-                    let n = if CLASSES[class] == "two-bit-checksum" { 224 } else { 54 };
+                    let n = if CLASSES[class] == "two-bit-checksum" { 224 } else if CLASSES[class] == "blind-attacker" { BLIND_FLAGS.len() as u64 * BLIND_REPLIES } else { 54 };
                     let confs_ref = &confs;
                     let rep = par_run(cfg, n, 8, |sub, rep| {
                         mon::begin_case(1, (cj as u64) << 8 | class as u64, sub, seed);
@@ -549,7 +647,7 @@ pub fn run(cfg: &Cfg) -> Report {
             }
         }
     }
-    total.count("configurations", nconf as u64 + if cfg.quick() { 2 } else { 0 });
+    total.count("configurations", nconf as u64 + if cfg.quick() { 5 } else { 0 });
     total
 }
 
